@@ -5,11 +5,16 @@ package main
 import (
 	"fmt"
 	"go/types"
+	"os"
+	"runtime/debug"
 	"sort"
 	"strings"
 )
 
 type Value interface{}
+
+// lastIns is the instruction being executed (diagnostics only: GOVC_TRACE_UNSUP)
+var lastIns interface{ String() string }
 
 type PtrKind int
 
@@ -151,6 +156,9 @@ type Unsupported struct{ Msg string }
 
 func (u Unsupported) Error() string { return "unsupported: " + u.Msg }
 func unsupported(msg string) Unsupported {
+	if os.Getenv("GOVC_TRACE_UNSUP") != "" {
+		fmt.Fprintf(os.Stderr, "UNSUPPORTED %s at %s\n%s\n", msg, lastIns, debug.Stack())
+	}
 	return Unsupported{msg}
 }
 
@@ -302,7 +310,7 @@ func ptrToTerm(v Value) *Term {
 	switch p.Kind {
 	case PObj:
 		if len(p.Path) != 0 {
-			panic(unsupported("interior pointer escapes into memory or a symbolic value"))
+			return ipTerm(p)
 		}
 		return p.Base
 	case PArr:
@@ -311,7 +319,35 @@ func ptrToTerm(v Value) *Term {
 	panic(unsupported("element pointer escapes into memory or a symbolic value"))
 }
 
+// Interior pointers (&obj.f.g) that are stored into memory or boxed into an interface are carried as the
+// uninterpreted application ip:<root type>:<path>(base). They are recovered only when a load resolves syntactically to
+// such a term; a pointer term that may be an interior pointer but is not syntactically one is outside the subset.
+type ipInfo struct {
+	root types.Type
+	path []int
+}
+
+var ipRegistry = map[string]ipInfo{}
+
+func ipTerm(p *PtrV) *Term {
+	name := "ip:" + typeKey(p.Root)
+	for _, i := range p.Path {
+		name += fmt.Sprintf(".%d", i)
+	}
+	if _, ok := ipRegistry[name]; !ok {
+		ipRegistry[name] = ipInfo{p.Root, append([]int(nil), p.Path...)}
+	}
+	return App(name, SInt, p.Base)
+}
+
 func termToPtr(t *Term, elem types.Type) *PtrV {
+	if t.Op == "app" && strings.HasPrefix(t.Name, "ip:") {
+		inf := ipRegistry[t.Name]
+		return &PtrV{Kind: PObj, Base: t.Args[0], Root: inf.root, Path: append([]int(nil), inf.path...)}
+	}
+	if t.hasIP {
+		panic(unsupported("pointer value that may be an interior pointer"))
+	}
 	if a, ok := elem.Underlying().(*types.Array); ok {
 		return &PtrV{Kind: PArr, Arr: t, Elem: a.Elem(), N: a.Len()}
 	}
@@ -591,7 +627,7 @@ func (s *State) NewBase() {
 	baseCount++
 	s.base = baseCount
 	s.allocN = 0
-	s.Assume(IntLe(oldTop, refTerm(s.base, 0)))
+	s.AssumeFact(IntLe(oldTop, refTerm(s.base, 0))) // the new base is a fresh symbol: its ordering is definitional, not a path fact
 }
 
 // Loc is a typed memory location.
